@@ -92,6 +92,35 @@ CLAIMS['C34'] = dict(engine='rtc (E3)', category='exploration',
     text='Bounded: for every occupation and every reported transition the final configuration reports the reverse transition with opposite displacement and Q - Q_rev = E_final - E_initial (1e-9), with KRA values, TS clusters, spectators, and a vacancy.',
     note='Sampler catalogue is the bound.')
 
+CLAIMS['C02'] = dict(engine='rtc (E3)', category='exploration',
+    technique='run-time postcondition of Interstitial.diffusivity against the full-site-basis CTMC spec function (numpy pinv), and agreement with the Green-function calculator; bounded stand-in',
+    text='Bounded: on every catalogue crystal (solve and pinv branches, vector bases of dimension 0-6, 2D and 3D, rotated settings) with seeded data the interstitial diffusivity equals the exact long-time diffusivity to 1e-9 and GFCrystalcalc.D agrees to 1e-8.',
+    note='CTMC formula trusted as definition; catalogue and seeded data are the bound.')
+CLAIMS['C03'] = dict(engine='rtc (E3)', category='exploration',
+    technique='self-certifying run-time postconditions (symmetry, point-group invariance, positive semidefiniteness) on both calculators; bounded stand-in with known findings',
+    text='Bounded: tensors returned by Interstitial.diffusivity / elastodiffusion and VacancyMediated.Lij over the catalogue with rate ratios up to e^8. Known findings: Lsv/L1vv asymmetric on low-symmetry crystals, Lss with a negative eigenvalue on one 2D cell.',
+    note='Tolerances 1e-8 (1e-5 with origin states: integration accuracy).')
+CLAIMS['C04'] = dict(engine='rtc (E3)', category='exploration',
+    technique='relational run-time contracts (energy shifts, joint prefactor scaling, energy/temperature co-scaling, rate scaling; reused and fresh calculators); bounded stand-in -- the planned degree-typing proof is not built',
+    text='Bounded: the four invariances and rate covariance hold to 1e-7 on every catalogue calculator with seeded data, on a reused calculator and on a fresh one.',
+    note='Clause (d) (intra-cell displacements) not covered.')
+CLAIMS['C06'] = dict(engine='rtc (E3)', category='exploration',
+    technique='run-time postcondition of Lij under the tracer precondition; bounded stand-in',
+    text='Bounded: Lsv = -L0vv, L1vv = 0, 0 <= Lss <= L0vv for seeded non-uniform vacancy data on the catalogue calculators (1e-9 algebraic / 1e-4 with origin states).',
+    note='Nthermo 1 (quick).')
+CLAIMS['C08'] = dict(engine='rtc (E3)', category='exploration',
+    technique='run-time postconditions of Lij over a grid of omega2 scales with both forced algorithms; bounded stand-in with known findings',
+    text='Bounded: finiteness/symmetry of the default selection, agreement of the two algorithms for scales <= 1e6, smooth approach to the large-rate limit (1e-3). Known findings: drift at 1e15/1e16, blow-up and disagreement on crystals with origin states, disagreement on low-symmetry crystals.',
+    note='Scale grid and catalogue are the bound; constants fixed in DESIGN.md.')
+CLAIMS['C11'] = dict(engine='rtc (E3)', category='exploration',
+    technique='run-time postconditions: barrier output vs 4th-order finite difference in beta; dipoles vs group-average projection spec; elastodiffusion vs finite difference of the exact CTMC diffusivity under strain; bounded stand-in',
+    text='Bounded: on every catalogue crystal with seeded data and arbitrary non-symmetric input dipoles: Db = -dD/dbeta (1e-6), dipoles are the symmetric projection carried by symmetry (1e-9), elastodiffusion = dD/dstrain (1e-6).',
+    note='Finite differences, not an exact symbolic identity.')
+CLAIMS['C12'] = dict(engine='rtc (E3)', category='exploration',
+    technique='run-time postconditions of losstensors against an independently rebuilt rate matrix and the fluctuation sum rule; bounded stand-in',
+    text='Bounded: positive mode rates that are eigenvalues of the symmetrised rate matrix, compliance symmetries, positive semidefiniteness, sum rule to 1e-9, on every catalogue crystal with seeded data and non-symmetric dipoles.',
+    note='eigh completeness makes the sum rule algebraic; outside SMT/CAS reach.')
+
 NOT_APPLICABLE = {
     'C01': 'no contract within reach: the postcondition "equals the infinite-dilution limit of the exact Markov chain, to integration accuracy" needs an independent infinite-lattice solver as oracle (differential testing, a different technique) and no SMT/CAS obligation expresses a quadrature error; the discrete mechanisms it rests on are claimed in C24-C26, its invariances in C04, its sum rules in C06',
     'C05': 'a 2-safety statement about the Loewner order of two outputs (Rayleigh monotonicity): a variational theorem of detailed balance, not an invariant of any loop or a postcondition of one call; its only executable form is a numeric comparison of two runs (testing, not contract checking)',
